@@ -167,7 +167,7 @@ def run(oc, tier, seed):
                "header-only page, a page without trailing newline, a page with sections, a template); every move = (a note of "
                "the index, single- or multi-line) x destination in {other page, header-only, no-trailing-newline, sections "
                "page, missing page created from a template, missing without template, the source page itself} x marker in "
-               "{none, x, ~}; pages mentioning the moved ZID in an earlier note are injected; compared: exit code and both "
+               "{none, x, ~}; pages mentioning the moved ZID in an earlier note are injected, and earlier notes whose 3-character ZID extends the moved 2-character one; compared: exit code and both "
                "files byte-for-byte with the model; spec on the implementation: source minus exactly the note's lines, "
                "destination lines unchanged, same ZIDs after recompiling, kind and metadata of the moved note; "
                "non-trivial = multi-line note or note with inherited metadata")
@@ -193,6 +193,18 @@ def run(oc, tier, seed):
                             lines[i] += " see %s there" % z
                             break
                     open(p, "w").write("\n".join(lines))
+            # an earlier note of the same page whose three-character ZID extends a two-character one
+            # (240510#0A5 before 240510#0A): the allocator really hands these out after #zz
+            for z in rng.sample(zids, min(3, len(zids))):
+                info = note_info(d, z)
+                if info and len(z) == 9 and not any((" %s " % z) in l for l in open(os.path.join(d, info["path"])).read().split("\n")[:info["line"] - 1]):
+                    p = os.path.join(d, info["path"])
+                    lines = open(p).read().split("\n")
+                    ext = z + rng.choice("05Az")
+                    if ext not in zids:
+                        lines.insert(info["line"] - 1, "- %s extended zid note" % ext)
+                        zids.append(ext)
+                        open(p, "w").write("\n".join(lines))
             with freeze_time(dt.datetime(2024, 6, 1, 12)):
                 Z.db_reindex(d)
             # a destination that is not indexed and lacks the final newline
